@@ -4,7 +4,7 @@ import fbenc
 from vlib import *
 
 
-def mutations(r, buf, marks, quick):
+def mutations(r, buf, marks, quick, all_wraps=False):
     """structure-aware single-word mutations at the positions the encoder recorded, plus truncations and byte noise"""
     n = len(buf)
     out = []
@@ -23,7 +23,7 @@ def mutations(r, buf, marks, quick):
         if what.endswith("veclen"):
             # counts whose product with an element size of 2..48 wraps around 2^32 to a small value
             wraps = [2**32 // e + k for e in (2, 3, 4, 6, 8, 12, 16, 24, 32, 48) for k in (0, 1)]
-            pick += r.sample(wraps, 5 if quick else 20)
+            pick += wraps if all_wraps else r.sample(wraps, 5 if quick else 20)
         for v in pick:
             m = bytearray(buf); m[pos:pos + size] = v.to_bytes(size, "little"); out.append(bytes(m))
     cuts = range(0, n) if n <= 96 and not quick else sorted(set(r.randrange(0, n) for _ in range(12)) | {n - 1, n - 2, n - 4, 8, 7, 4, 0})
@@ -85,16 +85,21 @@ def deep_buffer(levels, via):
     return e.finish(cur)[0]
 
 
-def gen(ctx, extra_schemas=None):
+def gen(ctx, extra_schemas=None, hot=()):
+    """extra_schemas: descriptors translated from generated verifiers; hot: indices of those that differ from what the schema demands
+    (more buffers and every wrap-around count for them: the search for a concrete failing input)"""
     r = ctx.rng
     blocks, expect_ok = [], []
     nschema = 40 if ctx.quick() else 600
     nbuf = 6 if ctx.quick() else 12
-    schemas = [fbenc.random_schema(r, nested=(i % 3 == 2)) for i in range(nschema)] + hand_schemas() + (extra_schemas or [])
-    for (tabs, uns) in schemas:
+    schemas = [fbenc.random_schema(r, nested=(i % 3 == 2)) for i in range(nschema)] + hand_schemas()
+    nbase = len(schemas)
+    schemas += (extra_schemas or [])
+    for si, (tabs, uns) in enumerate(schemas):
         lines = [fbenc.schema_line(tabs, uns)]
         exp = [None]
-        for _ in range(nbuf):
+        is_hot = (si - nbase) in hot
+        for _ in range(nbuf * 6 if is_hot else 3 if si >= nbase and ctx.quick() else nbuf):
             ti = r.randrange(len(tabs))
             ws = r.random() < 0.25
             ident = r.choice([None, None, b"ABCD", b"A\0CD", bytes(r.randrange(256) for _ in range(4))])
@@ -119,7 +124,7 @@ def gen(ctx, extra_schemas=None):
             for sh in (4, 8, 2):
                 lines.append(line(buf, shift=sh)); exp.append(None)
             lines.append(line(buf, "plain" if ws else "size")); exp.append(None)
-            for m in mutations(r, buf, marks, ctx.quick()):
+            for m in mutations(r, buf, marks, ctx.quick(), all_wraps=is_hot):
                 lines.append(line(m)); exp.append(None)
         blocks.append(lines); expect_ok.append(exp)
     # nesting depth: chains through every hop kind around the limit
@@ -156,6 +161,58 @@ def canon(o):
     return "reject" if o.startswith("reject") else o
 
 
+def generated_stage(ctx, flatcc):
+    """Tie of the hypothesis `wfB S M` (C01_generated_verifier) and of the model's call lists to the code the CURRENT compiler generates:
+    random .fbs schemas -> flatcc -> *_verifier.h -> translated call lists, which must (a) be fully recognised, (b) equal what the schema
+    demands (sizes / alignments / ids from the Lean layout model, max counts = UOFFSET_MAX / element size, required flags, union members,
+    unknown union types accepted), (c) satisfy wfB in Lean. The translated descriptors then drive the runtime verifier in the differential run.
+    -> (descriptors, hot indices, translator failures, differences, wf failures, stats)"""
+    import schemagen, schemamodel, genverifier as gv
+    r = ctx.rng
+    n = 24 if ctx.quick() else 300
+    descs, hot, ties, diffs, wf_bad = [], set(), [], [], []
+    cases = []
+    for i in range(n):
+        S = schemagen.gen_schema(r)
+        lay = schemamodel.layouts(S, r)
+        cases.append((i, S, lay, schemamodel.ids(S)))
+    def compile_one(case):
+        i, S, lay, ids = case
+        d = os.path.join(ctx.work, "gv%d" % i); os.makedirs(d, exist_ok=True)
+        fbs = os.path.join(d, "s.fbs"); open(fbs, "w").write(schemagen.render(S))
+        rc, log = flatcc_generate(ctx, flatcc, fbs, d, opts=("--verifier",))
+        p = os.path.join(d, "s_verifier.h")
+        if rc != 0 or not os.path.exists(p):
+            return (i, None, "flatcc --verifier failed on a generator-valid schema: " + log[:300])
+        return (i, open(p).read(), None)
+    with ThreadPoolExecutor(8) as ex:
+        texts = list(ex.map(compile_one, cases))
+    wf_lines, wf_meta = [], []
+    ncalls = 0
+    for (i, S, lay, ids), (_, text, err) in zip(cases, texts):
+        if err: ties.append("schema %d: %s\n%s" % (i, err, schemagen.render(S))); continue
+        try:
+            parsed = gv.parse(text)
+            tabs, uns = gv.to_descriptor(parsed[0], parsed[1], parsed[2], parsed[3])
+        except gv.TranslateError as e:
+            ties.append("schema %d: %s\n%s" % (i, e, schemagen.render(S))); continue
+        if len(tabs) > 16 or len(uns) > 16: continue
+        ncalls += sum(len(fs) for fs in tabs) + sum(len(ms) for ms in uns)
+        dd = gv.compare(parsed, gv.expected(S, lay, ids))
+        k = len(descs)
+        descs.append((tabs, uns))
+        if dd:
+            hot.add(k); diffs.append("schema %d: %s\n%s" % (i, "; ".join(dd[:4]), schemagen.render(S)))
+        wf_lines.append([fbenc.schema_line(tabs, uns), "wf %d" % gv.max_align(tabs, uns)]); wf_meta.append((i, k, S))
+    if wf_lines:
+        rc, out, _ = run_blocks(FMODEL, wf_lines, 8)
+        for j, (i, k, S) in enumerate(wf_meta):
+            o = out[2 * j + 1]
+            if o != "wf ok":
+                hot.add(k); wf_bad.append("schema %d: %s (hypothesis wfB of C01_generated_verifier is false for the generated call lists)\n%s" % (i, o, schemagen.render(S)))
+    return descs, hot, ties, diffs, wf_bad, {"generated_verifiers_translated": len(descs), "generated_calls_checked": ncalls}
+
+
 def run(ctx):
     ths = proof_stage(ctx)
     if ths is None:
@@ -168,7 +225,8 @@ def run(ctx):
         raise BuildError("flatcc -c failed: " + log)
     rt = build_runtime_objs(ctx)
     h = build_harness(ctx, "h_verify", [os.path.join(VERIF, "harness/h_verify.c")], rt, incs=[gen_dir])
-    blocks, expect = gen(ctx)
+    gdescs, ghot, gties, gdiffs, gwf, gstats = generated_stage(ctx, flatcc)
+    blocks, expect = gen(ctx, gdescs, ghot)
     rc_c, out_c, err_c = run_blocks(h, blocks, 16)
     rc_m, out_m, err_m = run_blocks(FMODEL, blocks, 16)
     lines = [l for b in blocks for l in b]
@@ -210,7 +268,8 @@ def run(ctx):
         i, why = min(spec_fail, key=lambda t: len(lines[t[0]]))
         sch = next(l for l in reversed(lines[:i + 1]) if l.startswith("schema"))
         violation(ctx, "spec_%d.json" % ctx.seed, {"kind": "property-fails-on-implementation", "schema": sch, "op": lines[i], "c_output": a[i][:3000],
-                                                     "model_output": b[i][:3000], "why": why, "count": len(spec_fail), "stderr": err_c[-2500:]})
+                                                     "model_output": b[i][:3000], "why": why, "count": len(spec_fail), "stderr": err_c[-2500:],
+                                                     "generated_verifier_difference": ((gwf + gdiffs)[0][:2000] if (gwf or gdiffs) else None)})
     elif idx or model_bad:
         i = min(idx or model_bad, key=lambda k: len(lines[k]))
         sch = next(l for l in reversed(lines[:i + 1]) if l.startswith("schema"))
@@ -218,6 +277,18 @@ def run(ctx):
                   {"kind": "correspondence-broken", "theorems_no_longer_tied": [t["name"] for t in ths], "schema": sch,
                    "op": lines[i], "c_output": a[i][:3000], "model_output": b[i][:3000], "count": len(idx), "model_internal": len(model_bad),
                    "stderr": (err_c + err_m)[-1500:]}, no_failing_input=True)
+    # the generated verifiers: a call list that is not what the schema demands (or for which wfB is false) breaks the hypothesis of
+    # C01_generated_verifier; when the runs above exhibited a concrete accepted-but-unsafe buffer for it, that is the replay (spec_*.json)
+    if (gdiffs or gwf) and not spec_fail:
+        violation(ctx, "generated_verifier_%d.json" % ctx.seed,
+                  {"kind": "proof-obligation-broken", "obligation": "hypothesis wfB S M of Flatcc.Verifier.C01_generated_verifier / generated call list = what the schema demands",
+                   "why": (gwf + gdiffs)[0][:3000], "count": len(gdiffs) + len(gwf), "more": [d[:300] for d in (gwf + gdiffs)[1:6]]}, no_failing_input=True)
+    elif gdiffs or gwf:
+        ctx.notes_extra = "the failing input of spec_%d.json was found for a generated verifier whose call list differs from what its schema demands: %s" % (ctx.seed, (gwf + gdiffs)[0][:600])
+    if gties:
+        violation(ctx, "translator_%d.json" % ctx.seed,
+                  {"kind": "translator-does-not-recognise-generated-code", "theorems_no_longer_tied": ["Flatcc.Verifier.C01_generated_verifier"],
+                   "why": gties[0][:3000], "count": len(gties)}, no_failing_input=True)
     nver = sum(1 for l in lines if l.startswith("verify"))
     nok = sum(1 for o in a if o.startswith("ok"))
     nested_sch = nested_ok = nested_rej = 0; cur_nested = False
@@ -237,6 +308,8 @@ def run(ctx):
                 "nesting chains of 1..400 levels through table / table-vector / union-vector hops; struct roots. Each line: C verdict + the reader walk's "
                 "access list vs the model's verdict + access list. distinct = verify lines by hash.",
         "schemas": len(blocks), "accepted": nok, "rejected": nver - nok,
+        "generated_verifiers_translated": gstats["generated_verifiers_translated"], "generated_calls_checked": gstats["generated_calls_checked"],
+        "generated_verifier_differences": len(gdiffs) + len(gwf), "translator_failures": len(gties),
         "schemas_with_nested_roots": nested_sch, "nested_schema_lines_accepted": nested_ok, "nested_schema_lines_rejected": nested_rej,
         "traces_validated_against_impl": nver, "correspondence_disagreements": len(idx), "spec_oracle_failures": len(spec_fail)})
     oks = [i for i, o in enumerate(a) if o.startswith("ok")]
